@@ -206,7 +206,7 @@ func (f FieldRef) Key() string {
 	if f.Struct == nil {
 		return "<anon>." + f.Name
 	}
-	return f.Struct.Obj().Name() + "." + f.Name
+	return TypeKey(f.Struct) + "." + f.Name
 }
 
 // FieldOf returns the field accessed by a FieldAddr or Field instruction.
@@ -399,5 +399,50 @@ func FullField(fa *ssa.FieldAddr) (key, owner string, typ types.Type, base ssa.V
 		st = pf.Struct
 		cur = pb
 	}
-	return st.Obj().Name() + "." + name, st.Obj().Name(), typ, cur
+	return TypeKey(st) + "." + name, TypeKey(st), typ, cur
+}
+
+// TypeKey names a named type: "T" in the public package, "pkg.T" in internal packages,
+// "import/path.T" elsewhere.
+func TypeKey(n *types.Named) string {
+	o := n.Obj()
+	if o.Pkg() == nil {
+		return o.Name()
+	}
+	p := o.Pkg().Path()
+	switch {
+	case p == RootPath:
+		return o.Name()
+	case strings.HasPrefix(p, RootPath+"/internal/"):
+		return strings.TrimPrefix(p, RootPath+"/internal/") + "." + o.Name()
+	}
+	return p + "." + o.Name()
+}
+
+// InLibrary reports whether named type n is declared in the library.
+func InLibrary(n *types.Named) bool {
+	return n != nil && n.Obj().Pkg() != nil && strings.HasPrefix(n.Obj().Pkg().Path(), RootPath)
+}
+
+// FullFieldOwner is FullField returning the owning named type itself.
+func FullFieldOwner(fa *ssa.FieldAddr) *types.Named {
+	f, b, ok := FieldOf(fa)
+	if !ok {
+		return nil
+	}
+	st := f.Struct
+	cur := b
+	for st == nil {
+		pfa, ok := cur.(*ssa.FieldAddr)
+		if !ok {
+			return nil
+		}
+		pf, pb, ok := FieldOf(pfa)
+		if !ok {
+			return nil
+		}
+		st = pf.Struct
+		cur = pb
+	}
+	return st
 }
